@@ -1,4 +1,5 @@
 import RV.C20.Model
+import RV.C20.Text
 import RV.Base.Proto
 /-
   C20 driver.  Terms and graph names are naturals owned by the harness (blank nodes 900–999,
@@ -20,8 +21,21 @@ import RV.Base.Proto
     contexts [s p o]            -> G g,g,…              (sorted)
     namedquads                  -> Q s,p,o,g …          (sorted)
     opaque                      -> ok                   (a read whose answer is not modelled)
+    slice s p o g lim off       -> ok                   (LIMIT/OFFSET read: flush modelled, answer not; `-` = unset)
     obs                         -> s,p,o,g s,p,o,g … | g,g,…    endpoint content (default graph = 0)
     queue                       -> number of queued edit strings (diagnostic)
+
+  Text layer (RV/C20/Text.lean).  Code points are comma separated, `_` = empty string, `-` = absent.
+    vocab id I cps              -> ok      (term id is the IRI with these code points)
+    vocab id L lex dt lang      -> ok      (term id is that literal)
+    gvocab id cps               -> ok      (graph name)
+    sent                        -> the requests the model predicts for the LAST operation, canonical:
+                                   `U op;op;…` (update request) / `Q<g>:T:s,p,o:ord:lim:off` / `Q<g>:LEN` /
+                                   `Q-:CTX:*|s,p,o` / `Q?`, several requests joined by ` | `; `-` = none
+    senttext                    -> the request TEXTS the model's writers produce for them (code points per request,
+                                   `-` where the text is not modelled: update(), graph operations, user queries)
+    decode u cps                -> reader applied to an update request text: `U op;op;…` or `U?`
+    decode q g cps              -> reader applied to a query text sent with default-graph-uri g (`-` none)
 -/
 open RV RV.C20 RV.Proto
 
@@ -89,49 +103,270 @@ def showOut : Out → String
 def flag? (w : String) : Option Bool :=
   if w = "0" then some false else if w = "1" then some true else none
 
-def doOp (r : Remote) (o : Option Op) : Remote × String :=
-  match o with
-  | some op => let (r', out) := r.step op; (r', showOut out)
-  | none => (r, "bad-op")
+/-! ### text layer glue -/
 
-def step (r : Remote) : List String → Remote × String
+structure St where
+  r : Remote
+  vocab : List (Nat × TTerm) := []
+  gvocab : List (Nat × Str) := []
+  /-- texts of the queued edits, aligned with `r.edits` (`none` = text not modelled) -/
+  pend : List (Option Str) := []
+  lastSent : List String := []
+  lastText : List (Option Str) := []
+
+def cps? (w : String) : Option Str :=
+  if w = "_" then some [] else
+  (w.splitOn ",").foldr (fun x acc => match x.toNat?, acc with
+    | some n, some l => some (Char.ofNat n :: l)
+    | _, _ => none) (some [])
+
+def optCps? (w : String) : Option (Option Str) :=
+  if w = "-" then some none else (cps? w).map some
+
+def showCps (s : Str) : String :=
+  if s.isEmpty then "_" else ",".intercalate (s.map (fun c => toString c.toNat))
+
+def termOf (st : St) (n : Nat) : Option TTerm := (st.vocab.find? (·.1 == n)).map (·.2)
+def gOf (st : St) : GName → Option (Option Str)
+  | none => some none
+  | some n => (st.gvocab.find? (·.1 == n)).map (fun x => some x.2)
+
+def idOfTerm (st : St) (t : TTerm) : String :=
+  match st.vocab.find? (·.2 == t) with
+  | some (n, _) => toString n
+  | none => "?"
+
+def idOfG (st : St) : Option Str → String
+  | none => "-"
+  | some g => match st.gvocab.find? (·.2 == g) with
+    | some (n, _) => toString n
+    | none => "?"
+
+def showG (g : GName) : String := match g with | none => "-" | some n => toString n
+def showT (t : Triple) : String := s!"{t.1},{t.2.1},{t.2.2}"
+def showOpt (x : Option Nat) : String := match x with | none => "*" | some n => toString n
+def showP (p : TPat) : String := s!"{showOpt p.1},{showOpt p.2.1},{showOpt p.2.2}"
+
+def showUOp : UOp → String
+  | .insertData g ts => s!"I{showG g}:" ++ "+".intercalate (ts.map showT)
+  | .deleteData g ts => s!"D{showG g}:" ++ "+".intercalate (ts.map showT)
+  | .deleteWhere g p => s!"W{showG g}:{showP p}"
+  | .deleteNamed p => s!"N:{showP p}"
+  | .dropGraph g => s!"X{showG g}"
+  | .createGraph n => s!"C{n}"
+
+def showTT (st : St) (t : TTriple) : String := s!"{idOfTerm st t.1},{idOfTerm st t.2.1},{idOfTerm st t.2.2}"
+def showOT (st : St) (x : Option TTerm) : String := match x with | none => "*" | some t => idOfTerm st t
+def showTP (st : St) (p : TPatT) : String := s!"{showOT st p.1},{showOT st p.2.1},{showOT st p.2.2}"
+
+def showTUOp (st : St) : TUOp → String
+  | .insertData g ts => s!"I{idOfG st g}:" ++ "+".intercalate (ts.map (showTT st))
+  | .deleteData g ts => s!"D{idOfG st g}:" ++ "+".intercalate (ts.map (showTT st))
+  | .deleteWhere g p => s!"W{idOfG st g}:{showTP st p}"
+  | .deleteNamed p => s!"N:{showTP st p}"
+  | .dropGraph g => s!"X{idOfG st g}"
+  | .createGraph g => s!"C{idOfG st (some g)}"
+
+def showPos : Option Pos → String
+  | none => "-" | some .s => "s" | some .p => "p" | some .o => "o"
+def showON (x : Option Nat) : String := match x with | none => "-" | some n => toString n
+
+def showQueryT (st : St) (g : String) : TQuery → String
+  | .triples p o l f => s!"Q{g}:T:{showTP st p}:{showPos o}:{showON l}:{showON f}"
+  | .len => s!"Q{g}:LEN"
+  | .contexts none => s!"Q{g}:CTX:*"
+  | .contexts (some p) => s!"Q{g}:CTX:{showTP st p}"
+
+/-- text-level pattern / triple of a model pattern -/
+def patT (st : St) (p : TPat) : Option TPatT :=
+  let f : Option Nat → Option (Option TTerm) := fun x => match x with
+    | none => some none
+    | some n => (termOf st n).map some
+  match f p.1, f p.2.1, f p.2.2 with
+  | some a, some b, some c => some (a, b, c)
+  | _, _, _ => none
+
+def tripleT (st : St) (t : Triple) : Option TTriple :=
+  match termOf st t.1, termOf st t.2.1, termOf st t.2.2 with
+  | some a, some b, some c => some (a, b, c)
+  | _, _, _ => none
+
+def triplesT (st : St) : List Triple → Option (List TTriple)
+  | [] => some []
+  | t :: ts => match tripleT st t, triplesT st ts with
+    | some a, some as => some (a :: as)
+    | _, _ => none
+
+/-- the texts of the strings one write call appends to `_edits`, aligned with `compileWrite`
+    (`none` = not modelled as text: `update()`, `add_graph`, `remove_graph`) -/
+def editTexts (st : St) (w : Write) (es : List (List UOp)) : List (Option Str) :=
+  match w, es with
+  | .add _ _, [[.insertData g [t]]] =>
+    [match gOf st g, tripleT st t with | some gg, some tt => wAdd gg tt | _, _ => none]
+  | .addN _, es =>
+    es.map (fun e => match e with
+      | [.insertData g ts] => (match gOf st g, triplesT st ts with | some gg, some tts => wAddN gg tts | _, _ => none)
+      | _ => none)
+  | .remove _ (.one _), [[.deleteWhere g p]] =>
+    [match gOf st g, patT st p with | some gg, some pp => wRemoveOne gg pp | _, _ => none]
+  | .remove _ .all, [[.deleteWhere none p, .deleteNamed _]] =>
+    [match patT st p with | some pp => wRemoveAll pp | none => none]
+  | _, es => es.map (fun _ => none)
+
+def firstUnbound (p : TPat) : Option Pos :=
+  if p.1.isNone then some .s else if p.2.1.isNone then some .p else if p.2.2.isNone then some .o else none
+
+/-- the query a read sends (canonical form, text), `none` when nothing is sent (refused) -/
+def queryOf (st : St) (rd : Read) (slice : Option (TPat × GName × Option Nat × Option Nat)) :
+    Option (String × Option Str) :=
+  let hook := st.r.hook
+  match slice with
+  | some (p, g, lim, off) =>
+    match encPat hook p with
+    | none => none
+    | some e =>
+      let ord := if lim.isSome || off.isSome then firstUnbound e else none
+      some (s!"Q{showG g}:T:{showP e}:{showPos ord}:{showON lim}:{showON off}",
+            (patT st e).bind (fun pp => wTriplesQuery pp ord lim off))
+  | none =>
+  match rd with
+  | .triples p g | .contains p g =>
+    match encPat hook p with
+    | none => none
+    | some e => some (s!"Q{showG g}:T:{showP e}:-:-:-", (patT st e).bind (fun pp => wTriplesQuery pp none none none))
+  | .len g => some (s!"Q{showG g}:LEN", some lenQueryText)
+  | .contexts none => some ("Q-:CTX:*", wContexts none)
+  | .contexts (some t) =>
+    match encTriple hook t with
+    | none => none
+    | some e => some (s!"Q-:CTX:{showT e}",
+        (patT st (some e.1, some e.2.1, some e.2.2)).bind (fun pp => wContexts (some pp)))
+  | .namedQuads | .opaque => some ("Q?", none)
+
+def allSome : List (Option Str) → Option (List Str)
+  | [] => some []
+  | x :: xs => match x, allSome xs with
+    | some a, some as => some (a :: as)
+    | _, _ => none
+
+/-- run one model step and record what the model says was sent -/
+def runOp (st : St) (op : Op) (slice : Option (TPat × GName × Option Nat × Option Nat) := none) : St × String :=
+  let r := st.r
+  let (r', out) := r.step op
+  -- the strings this call appended to the queue
+  let newTexts : List (Option Str) :=
+    match op with
+    | .write w =>
+      if r.readOnly then [] else
+      match compileWrite r.hook w with
+      | some es => editTexts st w es
+      | none => []
+    | _ => []
+  let newEdits : List (List UOp) :=
+    match op with
+    | .write w => if r.readOnly then [] else (compileWrite r.hook w).getD []
+    | _ => []
+  let queued := r.edits ++ newEdits
+  let queuedT := st.pend ++ newTexts
+  let isRollback := match op with | .rollback => true | _ => false
+  let flushed := !isRollback && !r.readOnly && r'.edits.isEmpty && !queued.isEmpty
+  let upd : List (String × Option Str) :=
+    if flushed then
+      [("U " ++ ";".intercalate (queued.flatten.map showUOp), (allSome queuedT).map joinEdits)]
+    else []
+  let qry : List (String × Option Str) :=
+    match op with
+    | .read rd => (queryOf st rd slice).toList
+    | _ => []
+  let pend' := if flushed || isRollback then [] else if r.readOnly then [] else queuedT
+  let reqs := upd ++ qry
+  ({ st with r := r', pend := pend', lastSent := reqs.map (·.1), lastText := reqs.map (·.2) }, showOut out)
+
+def doOp (st : St) (o : Option Op) : St × String :=
+  match o with
+  | some op => runOp st op
+  | none => (st, "bad-op")
+
+def optNatDash? (w : String) : Option (Option Nat) :=
+  if w = "-" then some none else w.toNat?.map some
+
+def decodeUpdate (st : St) (txt : Str) : String :=
+  match readRequest txt with
+  | some us => "U " ++ ";".intercalate (us.map (showTUOp st))
+  | none => "U?"
+
+def decodeQuery (st : St) (g : Option Str) (txt : Str) : String :=
+  match readQuery txt with
+  | some q => showQueryT st (idOfG st g) q
+  | none => "Q?"
+
+def step (st : St) : List String → St × String
   | ["reset", a, d, h, ro] =>
     match flag? a, flag? d, flag? h, flag? ro with
-    | some a, some d, some h, some ro => (Remote.init ⟨[], []⟩ a d h ro, "ok")
-    | _, _, _, _ => (r, "bad-op")
+    | some a, some d, some h, some ro =>
+      ({ st with r := Remote.init ⟨[], []⟩ a d h ro, pend := [], lastSent := [], lastText := [] }, "ok")
+    | _, _, _, _ => (st, "bad-op")
+  | ["vocab", n, "I", c] =>
+    match n.toNat?, cps? c with
+    | some n, some s => ({ st with vocab := (n, .iri s) :: st.vocab }, "ok")
+    | _, _ => (st, "bad-op")
+  | ["vocab", n, "L", lx, dt, lg] =>
+    match n.toNat?, cps? lx, optCps? dt, optCps? lg with
+    | some n, some lx, some dt, some lg => ({ st with vocab := (n, .lit lx dt lg) :: st.vocab }, "ok")
+    | _, _, _, _ => (st, "bad-op")
+  | ["gvocab", n, c] =>
+    match n.toNat?, cps? c with
+    | some n, some s => ({ st with gvocab := (n, s) :: st.gvocab }, "ok")
+    | _, _ => (st, "bad-op")
+  | ["sent"] => (st, if st.lastSent.isEmpty then "-" else " | ".intercalate st.lastSent)
+  | ["senttext"] =>
+    (st, if st.lastText.isEmpty then "none"
+         else " ".intercalate (st.lastText.map (fun t => match t with | some s => showCps s | none => "-")))
+  | ["decode", "u", c] =>
+    match cps? c with
+    | some txt => (st, decodeUpdate st txt)
+    | none => (st, "bad-op")
+  | ["decode", "q", g, c] =>
+    match optCps? g, cps? c with
+    | some g, some txt => (st, decodeQuery st g txt)
+    | _, _ => (st, "bad-op")
   | ["init", a, b, c, g] =>
     match triple? a b c, gname? g with
     | some t, some g =>
-      ({ r with ep := { quads := sinsert r.ep.quads (t, g), graphs := regGraph r.ep.graphs g } }, "ok")
-    | _, _ => (r, "bad-op")
+      ({ st with r := { st.r with ep := { quads := sinsert st.r.ep.quads (t, g), graphs := regGraph st.r.ep.graphs g } } }, "ok")
+    | _, _ => (st, "bad-op")
   | ["ginit", g] =>
     match g.toNat? with
-    | some n => ({ r with ep := { r.ep with graphs := sinsert r.ep.graphs n } }, "ok")
-    | none => (r, "bad-op")
-  | ["add", a, b, c, g] => doOp r (do
+    | some n => ({ st with r := { st.r with ep := { st.r.ep with graphs := sinsert st.r.ep.graphs n } } }, "ok")
+    | none => (st, "bad-op")
+  | ["add", a, b, c, g] => doOp st (do
       let t ← triple? a b c; let g ← gname? g; pure (.write (.add t g)))
-  | "addN" :: rest => doOp r (do let qs ← quads? rest; pure (.write (.addN qs)))
-  | ["remove", a, b, c, g] => doOp r (do
+  | "addN" :: rest => doOp st (do let qs ← quads? rest; pure (.write (.addN qs)))
+  | ["remove", a, b, c, g] => doOp st (do
       let p ← pat? a b c
       if g = "*" then pure (.write (.remove p .all))
       else let g ← gname? g; pure (.write (.remove p (.one g))))
-  | ["rgraph", g] => doOp r (do let g ← gname? g; pure (.write (.removeGraph g)))
-  | ["cgraph", g] => doOp r (do let n ← g.toNat?; pure (.write (.addGraph n)))
-  | "update" :: g :: rest => doOp r (do
+  | ["rgraph", g] => doOp st (do let g ← gname? g; pure (.write (.removeGraph g)))
+  | ["cgraph", g] => doOp st (do let n ← g.toNat?; pure (.write (.addGraph n)))
+  | "update" :: g :: rest => doOp st (do
       let g ← gname? g; let us ← lops? (rest.length + 1) rest; pure (.write (.update g us)))
-  | ["commit"] => doOp r (some .commit)
-  | ["rollback"] => doOp r (some .rollback)
-  | ["triples", a, b, c, g] => doOp r (do
+  | ["commit"] => doOp st (some .commit)
+  | ["rollback"] => doOp st (some .rollback)
+  | ["triples", a, b, c, g] => doOp st (do
       let p ← pat? a b c; let g ← gname? g; pure (.read (.triples p g)))
-  | ["len", g] => doOp r (do let g ← gname? g; pure (.read (.len g)))
-  | ["contains", a, b, c, g] => doOp r (do
+  | ["len", g] => doOp st (do let g ← gname? g; pure (.read (.len g)))
+  | ["contains", a, b, c, g] => doOp st (do
       let p ← pat? a b c; let g ← gname? g; pure (.read (.contains p g)))
-  | ["contexts"] => doOp r (some (.read (.contexts none)))
-  | ["contexts", a, b, c] => doOp r (do let t ← triple? a b c; pure (.read (.contexts (some t))))
-  | ["namedquads"] => doOp r (some (.read .namedQuads))
-  | ["opaque"] => doOp r (some (.read .opaque))
-  | ["obs"] => (r, showQuads r.ep.quads ++ " | " ++ showNames r.ep.graphs)
-  | ["queue"] => (r, toString r.edits.length)
-  | _ => (r, "bad-op")
+  | ["contexts"] => doOp st (some (.read (.contexts none)))
+  | ["contexts", a, b, c] => doOp st (do let t ← triple? a b c; pure (.read (.contexts (some t))))
+  | ["namedquads"] => doOp st (some (.read .namedQuads))
+  | ["opaque"] => doOp st (some (.read .opaque))
+  | ["slice", a, b, c, g, l, f] =>
+    match pat? a b c, gname? g, optNatDash? l, optNatDash? f with
+    | some p, some g, some l, some f => runOp st (.read .opaque) (some (p, g, l, f))
+    | _, _, _, _ => (st, "bad-op")
+  | ["obs"] => (st, showQuads st.r.ep.quads ++ " | " ++ showNames st.r.ep.graphs)
+  | ["queue"] => (st, toString st.r.edits.length)
+  | _ => (st, "bad-op")
 
-def main : IO Unit := RV.Proto.run step (Remote.init ⟨[], []⟩ true false false false)
+def main : IO Unit := RV.Proto.run step ({ r := Remote.init ⟨[], []⟩ true false false false } : St)
